@@ -5,6 +5,7 @@ import (
 	"math/rand"
 	"sort"
 	"strings"
+	"time"
 
 	"github.com/Tom-Johnston/mamba/disjoint"
 )
@@ -23,9 +24,79 @@ func showSets(s [][]int) string {
 	return "[" + strings.Join(parts, " ") + "]"
 }
 
+// c18Cycle returns an element from which following parent entries does not reach a root within
+// len(ds) steps (Find on it would never return), or -1. The harness must not call Find on such a
+// structure: the library loop would run (and allocate) forever inside the harness process.
+func c18Cycle(ds []int) int {
+	n := len(ds)
+	for x := 0; x < n; x++ {
+		cur, steps := x, 0
+		for cur >= 0 && cur < n && ds[cur] >= 0 {
+			cur = ds[cur]
+			steps++
+			if steps > n {
+				return x
+			}
+		}
+	}
+	return -1
+}
+
+// c18Find calls the library Find(x) and then checks that every node that was on the path from x
+// (the only entries path compression may touch) still reaches a root; ok=false means Find created a
+// cycle. ds must be acyclic before the call. buf != nil selects FindBuffered.
+func c18Find(ds *disjoint.Set, x int, buf []int) (r int, ok bool) {
+	d := *ds
+	n := len(d)
+	path := []int{}
+	for cur := x; cur >= 0 && cur < n && len(path) <= n; cur = d[cur] {
+		path = append(path, cur)
+		if d[cur] < 0 {
+			break
+		}
+	}
+	if buf != nil {
+		r = ds.FindBuffered(x, buf)
+	} else {
+		r = ds.Find(x)
+	}
+	d = *ds
+	for _, p := range path {
+		cur, steps := p, 0
+		for cur >= 0 && cur < n && d[cur] >= 0 {
+			cur = d[cur]
+			steps++
+			if steps > n {
+				return r, false
+			}
+		}
+	}
+	return r, true
+}
+
+// c18Rehearse runs Find on a copy of ds for the given elements (all elements if xs is nil) and
+// reports the first element whose Find creates a cycle in the copy (-1 if none). It is called
+// before library calls that perform several Finds internally (Union, SmallestRep, Sets), which would
+// otherwise hang on a cycle created by their own first Find. ds itself must be acyclic.
+func c18Rehearse(ds disjoint.Set, xs []int, buf []int) int {
+	tmp := append(disjoint.Set(nil), ds...)
+	if xs == nil {
+		for i := range tmp {
+			xs = append(xs, i)
+		}
+	}
+	for _, x := range xs {
+		if _, ok := c18Find(&tmp, x, buf); !ok {
+			return x
+		}
+	}
+	return -1
+}
+
 func init() {
 	register(&Proto{
-		Name:  "ds",
+		Name:    "ds",
+		Timeout: 5 * time.Second,
 		Props: []string{"C18"},
 		Run: func(args []string) Result {
 			all := args[0] == "all"
@@ -46,6 +117,10 @@ func init() {
 			}
 			tags := map[string]bool{}
 			nun := 0
+			cycleResult := func(when string, x int) Result {
+				return Result{Out: out.String() + "cycle", Tags: []string{"cycle"},
+					Oracle: fmt.Sprintf("%s: Find(%d) leaves parent links that never reach a root (the next Find would not terminate); state before: %v", when, x, []int(ds))}
+			}
 			checkSR := func(when string) []int {
 				sr := ds.SmallestRep()
 				for i := range lab {
@@ -64,6 +139,13 @@ func init() {
 						tags["union-joined"] = true
 					} else {
 						nun++
+					}
+					var rbuf []int
+					if ops[i] == "ub" {
+						rbuf = buf
+					}
+					if c := c18Rehearse(ds, []int{x, y}, rbuf); c >= 0 {
+						return cycleResult(fmt.Sprintf("inside %s %d %d (op at token %d)", ops[i], x, y, i), c)
 					}
 					if ops[i] == "u" {
 						ds.Union(x, y)
@@ -92,6 +174,10 @@ func init() {
 					} else {
 						r = ds.FindBuffered(x, buf)
 					}
+					if c := c18Cycle(ds); c >= 0 {
+						ds = before
+						return cycleResult(fmt.Sprintf("%s %d (op at token %d)", ops[i], x, i), x)
+					}
 					if r < 0 || r >= n || lab[r] != lab[x] {
 						fail("Find(%d)=%d is not in the class of %d (%v)", x, r, x, lab)
 					}
@@ -103,7 +189,15 @@ func init() {
 					// every member of the class must have the same representative
 					for j := range lab {
 						if lab[j] == lab[x] {
-							if ds.Find(j) != ds.Find(x) {
+							rj, ok1 := c18Find(&ds, j, nil)
+							if !ok1 {
+								return cycleResult(fmt.Sprintf("after %s %d (op at token %d)", ops[i], x, i), j)
+							}
+							rx, ok2 := c18Find(&ds, x, nil)
+							if !ok2 {
+								return cycleResult(fmt.Sprintf("after %s %d (op at token %d)", ops[i], x, i), x)
+							}
+							if rj != rx {
 								fail("members %d and %d of one class have different representatives", j, x)
 							}
 						}
@@ -112,10 +206,20 @@ func init() {
 				default:
 					return Result{Out: "bad-op"}
 				}
+				if c := c18Cycle(ds); c >= 0 {
+					return Result{Out: out.String() + "cycle", Tags: []string{"cycle"},
+						Oracle: fmt.Sprintf("after the op ending at token %d the parent links from %d never reach a root (Find(%d) would not terminate): %v", i, c, c, []int(ds))}
+				}
 				if all {
+					if c := c18Rehearse(ds, nil, nil); c >= 0 {
+						return cycleResult(fmt.Sprintf("lookups after the op ending at token %d", i), c)
+					}
 					sr := checkSR(fmt.Sprintf("after op %d", i))
 					out.WriteString(showInts(sr) + ";")
 				}
+			}
+			if c := c18Rehearse(ds, nil, nil); c >= 0 {
+				return cycleResult("final lookups", c)
 			}
 			sr := checkSR("final")
 			sets := ds.Sets()
